@@ -26,6 +26,15 @@ func (e StdEng) argmaxDenseTensor(t DenseTensor, axis int) (retVal *Dense, err e
 
 	// SPECIAL CASE: FLAT ARGMAX
 	if axis == AllAxes {
+		if d, ok := t.(*Dense); ok && d.IsMaterializable() {
+			// a view or a lazily transposed tensor: scan its elements in logical order, not
+			// its window of the backing array
+			t = d.Materialize().(DenseTensor)
+			dataA = t.hdr()
+		}
+		if t.DataOrder().IsColMajor() && !t.IsVector() {
+			return nil, errors.Errorf("NYI: colmajor")
+		}
 		var index int
 		if mt, ok := t.(MaskedTensor); ok && mt.IsMasked() {
 			if index = e.E.ArgmaxFlatMasked(typ, dataA, mt.Mask()); index == -1 {
@@ -113,6 +122,15 @@ func (e StdEng) argminDenseTensor(t DenseTensor, axis int) (retVal *Dense, err e
 
 	// SPECIAL CASE: FLAT ARGMAX
 	if axis == AllAxes {
+		if d, ok := t.(*Dense); ok && d.IsMaterializable() {
+			// a view or a lazily transposed tensor: scan its elements in logical order, not
+			// its window of the backing array
+			t = d.Materialize().(DenseTensor)
+			dataA = t.hdr()
+		}
+		if t.DataOrder().IsColMajor() && !t.IsVector() {
+			return nil, errors.Errorf("NYI: colmajor")
+		}
 		var index int
 		if mt, ok := t.(MaskedTensor); ok && mt.IsMasked() {
 			if index = e.E.ArgminFlatMasked(typ, dataA, mt.Mask()); index == -1 {
